@@ -21,6 +21,7 @@ import (
 	"os"
 	"os/exec"
 	"path/filepath"
+	"reflect"
 	"runtime"
 	"sort"
 	"strings"
@@ -29,6 +30,7 @@ import (
 	"github.com/invopop/gobl"
 	"github.com/invopop/gobl/bill"
 	"github.com/invopop/gobl/dsig"
+	"github.com/invopop/gobl/num"
 	"github.com/invopop/gobl/schema"
 	"github.com/invopop/gobl/tax"
 	"goblverif/internal/tr"
@@ -47,18 +49,18 @@ type bulkResponse struct {
 	IsFinal bool            `json:"is_final"`
 }
 type bulkEvent struct {
-	Tr    int      `json:"tr"`
-	N     int      `json:"n"`
-	Kind  string   `json:"kind"` // start | resp | final | end
-	NReq  int      `json:"nreq"`
-	Bad   int      `json:"bad"` // position of a malformed request, 0 = none
-	IDs   []string `json:"ids"`
-	Seq   int      `json:"seq"`
-	Req   string   `json:"req"`
-	Err   bool     `json:"err"`   // the response (or final marker) carries an error
-	Cmp   bool     `json:"cmp"`   // payload bulkComparable with the standalone result
-	Same  bool     `json:"same"`  // ... and equal to it
-	Action string  `json:"action"`
+	Tr     int      `json:"tr"`
+	N      int      `json:"n"`
+	Kind   string   `json:"kind"` // start | resp | final | end
+	NReq   int      `json:"nreq"`
+	Bad    int      `json:"bad"` // position of a malformed request, 0 = none
+	IDs    []string `json:"ids"`
+	Seq    int      `json:"seq"`
+	Req    string   `json:"req"`
+	Err    bool     `json:"err"`  // the response (or final marker) carries an error
+	Cmp    bool     `json:"cmp"`  // payload bulkComparable with the standalone result
+	Same   bool     `json:"same"` // ... and equal to it
+	Action string   `json:"action"`
 }
 
 func sha(b []byte) string {
@@ -312,6 +314,75 @@ func registryFingerprint() string {
 
 var concKey = dsig.NewES256Key()
 
+var (
+	taintAmount  = num.MakeAmount(987654321, 3)
+	taintPercent = num.MakePercentage(987, 3)
+	typAmount    = reflect.TypeOf(num.Amount{})
+	typPercent   = reflect.TypeOf(num.Percentage{})
+)
+
+// taint overwrites, in place, everything reachable from a document through exported fields: strings,
+// amounts, percentages, map values and slice elements.  Returns the number of values written.
+func taint(v reflect.Value, seen map[uintptr]bool, depth int) int {
+	if depth > 40 || !v.IsValid() {
+		return 0
+	}
+	n := 0
+	switch v.Kind() {
+	case reflect.Ptr, reflect.Interface:
+		if v.IsNil() {
+			return 0
+		}
+		if v.Kind() == reflect.Ptr {
+			if seen[v.Pointer()] {
+				return 0
+			}
+			seen[v.Pointer()] = true
+		}
+		return taint(v.Elem(), seen, depth+1)
+	case reflect.Struct:
+		if v.CanSet() {
+			switch v.Type() {
+			case typAmount:
+				v.Set(reflect.ValueOf(taintAmount))
+				return 1
+			case typPercent:
+				v.Set(reflect.ValueOf(taintPercent))
+				return 1
+			}
+		}
+		for i := 0; i < v.NumField(); i++ {
+			if v.Type().Field(i).PkgPath != "" { // unexported
+				continue
+			}
+			n += taint(v.Field(i), seen, depth+1)
+		}
+	case reflect.String:
+		if v.CanSet() && v.Len() > 0 {
+			v.SetString("TAINT")
+			n++
+		}
+	case reflect.Slice:
+		for i := 0; i < v.Len(); i++ {
+			n += taint(v.Index(i), seen, depth+1)
+		}
+	case reflect.Map:
+		for _, k := range v.MapKeys() {
+			e := v.MapIndex(k)
+			switch e.Kind() {
+			case reflect.String:
+				nv := reflect.New(e.Type()).Elem()
+				nv.SetString("TAINT")
+				v.SetMapIndex(k, nv)
+				n++
+			case reflect.Ptr, reflect.Interface, reflect.Slice, reflect.Map:
+				n += taint(e, seen, depth+1)
+			}
+		}
+	}
+	return n
+}
+
 // concOps runs the life-cycle on one document and returns a fingerprint per operation
 func concOps(raw []byte) map[string]string {
 	out := map[string]string{}
@@ -491,6 +562,43 @@ func concRun(repo string, seed int64, goroutines, rounds int, out string) error 
 	}
 	after := registryFingerprint()
 	w.Emit(concEvent{K: "registry", Op: "after-sequential", Same: after == before, Seq: before, Got: after})
+	// documents are independent of the definitions and of each other: after a document has been calculated,
+	// corrected and replicated, everything the caller can reach in it is overwritten in place (as an
+	// application editing its own document may do).  The definitions must not notice, and documents
+	// processed afterwards must give what they gave before.
+	tainted := 0
+	for _, d := range docs {
+		func() {
+			defer func() { recover() }()
+			env := new(gobl.Envelope)
+			if json.Unmarshal(d, env) != nil || env.Calculate() != nil {
+				return
+			}
+			objs := []any{env.Extract()}
+			if _, ok := env.Extract().(*bill.Invoice); ok {
+				if c, err := env.Correct(bill.Credit, bill.WithReason("r"), bill.WithCopyTax()); err == nil {
+					objs = append(objs, c.Extract())
+				}
+				if c, err := env.Replicate(); err == nil {
+					objs = append(objs, c.Extract())
+				}
+			}
+			for _, o := range objs {
+				tainted += taint(reflect.ValueOf(o), map[uintptr]bool{}, 0)
+			}
+		}()
+	}
+	edited := registryFingerprint()
+	w.Emit(concEvent{K: "registry", Op: "after-editing-documents", Same: edited == before, Seq: before, Got: edited})
+	for i, d := range docs {
+		got := concOps(d)
+		for op, want := range seq[i] {
+			if got[op] != want {
+				w.Emit(concEvent{K: "result", G: -1, Op: op, Doc: names[i] + " (after other documents were edited)", Same: false, Seq: want, Got: got[op]})
+			}
+		}
+	}
+	fmt.Printf("tainted=%d\n", tainted)
 	fmt.Printf("events=%d docs=%d\n", w.N, len(docs))
 	return w.Close()
 }
